@@ -55,7 +55,12 @@ def _run(params):
 
 def line(cid, r):
     I, a = r['in'], r['aux']
-    v = lambda k: I[k]['value']  # noqa: E731
+    given = r.get('params') or {}
+
+    def v(k):
+        # what the user WROTE is what the assessment is of: a provided plain number is taken from the input, everything else from the model
+        g = given.get(k)
+        return g if isinstance(g, (int, float)) and not isinstance(g, bool) else I[k]['value']
     F = core.frac
     return (f'hip {cid} area={F(v("Reservoir Area"))} thickness={F(v("Reservoir Thickness"))} porosity={F(v("Reservoir Porosity"))} '
             f'rf={F(v("Recoverable Fluid Factor"))} rockDensity={F(v("Density Of Reservoir Rock"))} fluidDensity={F(v("Density Of Reservoir Fluid"))} '
@@ -67,7 +72,7 @@ def line(cid, r):
 def gen_params(rng):
     T = rng.choice([60, 85, 90, 95.5, 120, 149, 150, 175, 250, 300, 360])
     p = {'Reservoir Temperature': T, 'Rejection Temperature': rng.choice([10, 25, 40, 60]) if T > 60 else rng.choice([10, 25]),
-         'Reservoir Porosity': rng.choice([0.5, 5, 10, 18, 35]), 'Reservoir Area': rng.choice([1, 12.5, 55, 81, 400]),
+         'Reservoir Porosity': rng.choice([0.2, 0.5, 0.8, 1.0, 5, 10, 18, 35]), 'Reservoir Area': rng.choice([1, 12.5, 55, 81, 400]),
          'Reservoir Thickness': rng.choice([0.05, 0.25, 1, 2.5]), 'Reservoir Life Cycle': rng.choice([1, 25, 30, 100])}
     if rng.random() < 0.04:
         p['Reservoir Temperature'], p['Rejection Temperature'] = rng.choice([(60, 150), (90, 90), (100, 120)])  # accepted, not physical
@@ -87,6 +92,11 @@ def gen_params(rng):
         p['Density Of Reservoir Fluid'] = rng.choice([8.5e11, 9.8e11])
     if rng.random() < 0.2:
         p['Fluid Specific Heat Capacity'] = rng.choice([4.18, 4.5])
+    if rng.random() < 0.3:
+        # optional recovery fractions, up to the top of their range
+        p['Rock Recoverable Heat'] = rng.choice([0.5, 0.9, 0.95, 1.0])
+        if rng.random() < 0.5:
+            p['Fluid Recoverable Heat'] = rng.choice([0.5, 1.0])
     return p
 
 
